@@ -5,6 +5,14 @@
 //! (own exhaustive scoring collector) is compared with an independent f32 evaluation of the BM25
 //! formula from PUBLIC statistics only; `explain().value()`, other collectors / K and other
 //! segmentations must give the same score.
+//!
+//! Two corpus profiles: small corpora (<= 500 documents) whose field lengths walk the field-norm
+//! buckets, and large ones whose single segment spans 2-4 windows of the buffered union scorer
+//! (4096 documents; per-slot score-combiner state is reused from window to window and dropped on
+//! seeks beyond the window), indexed also as chunks that all stay below one window and as a merge
+//! of those chunks, with terms that are dense, rare or confined to doc-id ranges on window
+//! boundaries, and with union-heavy queries (disjunction-max with tie breaker, should-booleans,
+//! unions of unions, a required clause seeking into an optional union).
 #[path = "scshared/mod.rs"]
 mod scshared;
 
@@ -1271,7 +1279,7 @@ fn main() {
     simple_finish(
         &ctx,
         rep,
-        "evaluation = one scored (query, document, segmentation): the score from an exhaustive scoring collector compared with an f32 evaluation of idf*(1+k1)*boost*tf/(tf+k1*(1-b+b*dl/avgdl)) from Searcher::doc_freq, sum of max_doc, sum of total_num_tokens, postings term_freq and the field-norm byte (decoded with an independently written table), summed / maxed per boolean / disjunction-max structure; plus explain() on sampled documents, five other collector/K variants and the same documents under 2-4 segmentations; plus the public Bm25Weight API on all 256 field-norm ids. Non-trivial = tf>1 or >=2 scoring clauses or >=2 segments. Distinct = query kind x clause count x segment count x field-norm id x tf class.",
+        "evaluation = one scored (query, document, segmentation): the score from an exhaustive scoring collector compared with an f32 evaluation of idf*(1+k1)*boost*tf/(tf+k1*(1-b+b*dl/avgdl)) from Searcher::doc_freq, sum of max_doc, sum of total_num_tokens, postings term_freq and the field-norm byte (decoded with an independently written table), summed / maxed per boolean / disjunction-max structure; plus explain() on sampled documents, five other collector/K variants and the same documents under 2-5 segmentations; plus the public Bm25Weight API on all 256 field-norm ids. Stream bm25 = corpora of <= 500 documents with field lengths across the reachable field-norm buckets; stream bm25-large-segments = corpora of 4097..13k (thorough 30k) short documents whose single segment spans several 4096-document windows of the buffered union scorer, also indexed as chunks below one window (sometimes merged back), union-heavy queries, explain() on both sides of every window boundary. Non-trivial = tf>1 or >=2 scoring clauses or >=2 segments. Distinct = query kind x clause count x segment count x union window of the document x field-norm id x tf class.",
         ctx.scale(500, 5000),
         &[
             "total docs = sum of max_doc (deleted documents count), as documented for Bm25StatisticsProvider",
